@@ -196,6 +196,8 @@ func mkctx(kind string) (context.Context, context.CancelFunc) {
 		return ctx, func() {}
 	case "deadline": // generous deadline: behaves like a live context
 		return context.WithTimeout(context.Background(), time.Minute)
+	case "expiring": // expires while the call is running
+		return context.WithTimeout(context.Background(), 30*time.Millisecond)
 	}
 	return context.Background(), func() {}
 }
@@ -203,16 +205,17 @@ func mkctx(kind string) (context.Context, context.CancelFunc) {
 // ---------------------------------------------------------------- recorded facts per component
 
 type facts struct {
-	mu   sync.Mutex
-	beg  map[int]bool
-	del  map[int]bool
-	exp  map[int]bool
-	sd   int
-	xsd  int
-	ff   int
-	nexp int
-	last int
-	late int // deliveries seen after the component's own Shutdown (observation only)
+	mu      sync.Mutex
+	beg     map[int]bool
+	del     map[int]bool
+	exp     map[int]bool
+	sd      int
+	xsd     int
+	ff      int
+	nexp    int
+	last    int
+	late    int // deliveries seen after the component's own Shutdown (observation only)
+	invalid int // entries handed to the exporter that are not ended spans / records
 }
 
 func newFacts() *facts { return &facts{beg: map[int]bool{}, del: map[int]bool{}, exp: map[int]bool{}} }
@@ -237,16 +240,55 @@ type compBase struct {
 	re       *reentryRef
 }
 
+// guard is deferred by every component callback: the recording components must never crash on what the
+// SDK hands them -- a panic inside a callback is recorded as a Panic event (a `panic` violation of the
+// contract, with the callback site and the SDK frame that called it) instead of killing the goroutine of
+// the SDK it runs on.
+func (c *compBase) guard(site string) {
+	if r := recover(); r != nil {
+		_, where := crashWhere(string(debug.Stack()))
+		c.em.ev("Panic", "g", "", "k", 0, "op", site, "c", c.id, "where", site+" <- "+where, "msg", fmt.Sprint(r))
+	}
+}
+
+// spanItem reads what the exporter needs from a span the SDK handed over, without trusting it: ok=false
+// for a nil entry or a value whose methods panic (e.g. a wrapper around a nil ReadOnlySpan).
+func spanItem(s sdktrace.ReadOnlySpan) (name string, ok bool) {
+	defer func() {
+		if recover() != nil {
+			name, ok = "", false
+		}
+	}()
+	if s == nil {
+		return "", false
+	}
+	_ = s.SpanContext()
+	return s.Name(), true
+}
+
 // ---------------------------------------------------------------- trace components
 
 type tExp struct{ c *compBase }
 
 func (e *tExp) ExportSpans(_ context.Context, spans []sdktrace.ReadOnlySpan) error {
+	defer e.c.guard("exp.Export")
 	items := []int{}
+	invalid := 0
 	for _, s := range spans {
-		if n, ok := itemOf(s.Name()); ok {
+		name, ok := spanItem(s)
+		if !ok {
+			invalid++
+			continue
+		}
+		if n, ok := itemOf(name); ok {
 			items = append(items, n)
 		}
+	}
+	if invalid > 0 { // not an ended span: nil entry, or something that is not a span at all (a flush marker)
+		e.c.em.ev("InvalidExport", "c", e.c.id, "n", invalid)
+		e.c.f.mu.Lock()
+		e.c.f.invalid += invalid
+		e.c.f.mu.Unlock()
 	}
 	if len(items) == 0 {
 		return nil // probe spans only
@@ -264,6 +306,7 @@ func (e *tExp) ExportSpans(_ context.Context, spans []sdktrace.ReadOnlySpan) err
 }
 
 func (e *tExp) Shutdown(context.Context) error {
+	defer e.c.guard("exp.Shutdown")
 	e.c.em.ev("ExpShutdown", "c", e.c.id)
 	e.c.f.mu.Lock()
 	e.c.f.xsd++
@@ -316,6 +359,7 @@ func newTProc(id, kind string, em *emitter, sh *shaker, bo bspOpts, fs *faultSwi
 }
 
 func (p *tProc) OnStart(ctx context.Context, s sdktrace.ReadWriteSpan) {
+	defer p.guard("proc.OnStart")
 	if n, ok := itemOf(s.Name()); ok {
 		p.em.ev("Deliver", "c", p.id, "item", n, "ph", "start")
 		p.f.mu.Lock()
@@ -334,6 +378,7 @@ func (p *tProc) OnStart(ctx context.Context, s sdktrace.ReadWriteSpan) {
 }
 
 func (p *tProc) OnEnd(s sdktrace.ReadOnlySpan) {
+	defer p.guard("proc.OnEnd")
 	if n, ok := itemOf(s.Name()); ok {
 		p.em.ev("Deliver", "c", p.id, "item", n, "ph", "end")
 		p.f.mu.Lock()
@@ -393,6 +438,7 @@ func recItem(r *sdklog.Record) (int, bool) {
 }
 
 func (e *lExp) Export(_ context.Context, recs []sdklog.Record) error {
+	defer e.c.guard("exp.Export")
 	items := []int{}
 	for i := range recs {
 		if n, ok := recItem(&recs[i]); ok {
@@ -414,6 +460,7 @@ func (e *lExp) Export(_ context.Context, recs []sdklog.Record) error {
 	return nil
 }
 func (e *lExp) Shutdown(context.Context) error {
+	defer e.c.guard("exp.Shutdown")
 	e.c.em.ev("ExpShutdown", "c", e.c.id)
 	e.c.f.mu.Lock()
 	e.c.f.xsd++
@@ -450,6 +497,7 @@ func newLProc(id, kind string, em *emitter, sh *shaker, interval time.Duration, 
 }
 
 func (p *lProc) OnEmit(ctx context.Context, r *sdklog.Record) error {
+	defer p.guard("proc.OnEmit")
 	if n, ok := recItem(r); ok {
 		p.em.ev("Deliver", "c", p.id, "item", n, "ph", "end")
 		p.f.mu.Lock()
@@ -523,6 +571,7 @@ func (e *mExp) Aggregation(k sdkmetric.InstrumentKind) sdkmetric.Aggregation {
 	return sdkmetric.DefaultAggregationSelector(k)
 }
 func (e *mExp) Export(_ context.Context, rm *metricdata.ResourceMetrics) error {
+	defer e.c.guard("exp.Export")
 	v := sumOf(rm)
 	e.c.em.ev("Export", "c", e.c.id, "items", []int{}, "val", v)
 	e.c.f.mu.Lock()
@@ -538,6 +587,7 @@ func (e *mExp) ForceFlush(context.Context) error {
 	return e.c.fault.failIf("exporter", nil)
 }
 func (e *mExp) Shutdown(context.Context) error {
+	defer e.c.guard("exp.Shutdown")
 	e.c.em.ev("ExpShutdown", "c", e.c.id)
 	e.c.f.mu.Lock()
 	e.c.f.xsd++
